@@ -114,24 +114,8 @@ def Uniform (G : Nat → ExStamps) (H : List Nat) (k : Nat) (ref cTx1 : Int) (a 
   (a.il = true ∧ ∃ p ∈ H, a.t0 = toTime (G p).cTx ref ∧ a.t1 = toTime (G p).sRx ref ∧
       a.t2 = toTime (G p).sTx ref ∧ a.t3 = toTime (G p).cRx ref)
 
-theorem mkRequest_cTx0 (cfg : Cfg) (prev : Prev) (reference : String) (now : Int) :
-    (mkRequest cfg prev reference now).cTx0 = now := by
-  unfold mkRequest; split <;> rfl
-
-theorem mkRequest_interleaved (cfg : Cfg) (prev : Prev) (reference : String) (now : Int)
-    (h : (mkRequest cfg prev reference now).interleaved = true) :
-    prev.reference = reference ∧ cfg.interleavedMode = true ∧
-    (mkRequest cfg prev reference now).origin = prev.sRx ∧
-    (mkRequest cfg prev reference now).rx = prev.cRx ∧ (mkRequest cfg prev reference now).tx = prev.cTx := by
-  unfold mkRequest at h ⊢
-  split
-  · rename_i hc
-    simp only [Bool.and_eq_true, beq_iff_eq] at hc
-    exact ⟨hc.1.2.symm, hc.1.1, rfl, rfl, rfl⟩
-  · rename_i hc; rw [if_neg hc] at h; cases h
-
 /-- Core of the pairing argument, at the NTP stage shared by both clients. -/
-theorem pairing_ntpStage (G : Nat → ExStamps) (H Srv : List Nat) (k : Nat)
+theorem C03_pairing_stage (G : Nat → ExStamps) (H Srv : List Nat) (k : Nat)
     (cfg : Cfg) (prev : Prev) (reference : String) (now cTx1 cRx : Int) (p : Payload) (a : Accepted)
     (href : reference ≠ "") (hco : Coherent G H prev) (hsub : ∀ x ∈ H, x ∈ Srv)
     (a1 : A1 G Srv) (a2 : A2 G H)
@@ -226,7 +210,7 @@ theorem C03_pairing_ip (G : Nat → ExStamps) (H Srv : List Nat) (k : Nat)
       cfg.deadlineSet 0 0 evs = .accepted a n := hres
   obtain ⟨d, cRx, b, hm, hc⟩ := runLoop_accepted _ _ _ _ _ _ _ hres'
   obtain ⟨hs, hn⟩ := classifyIP_accept _ _ _ _ _ _ _ _ hc
-  obtain ⟨hu, hcrx, hupd⟩ := pairing_ntpStage G H Srv k cfg prev reference now cTx1 cRx d.payload a
+  obtain ⟨hu, hcrx, hupd⟩ := C03_pairing_stage G H Srv k cfg prev reference now cTx1 cRx d.payload a
     href hco hsub a1 a2 (a4 d cRx b hm hs) hn
   refine ⟨hu, ?_⟩
   intro h1 h2
@@ -253,7 +237,7 @@ theorem C03_pairing_scion (G : Nat → ExStamps) (H Srv : List Nat) (k : Nat)
       cfg.deadlineSet 0 0 evs = .accepted a n := hres
   obtain ⟨d, cRx, b, hm, hc⟩ := runLoop_accepted _ _ _ _ _ _ _ hres'
   obtain ⟨_, _, _, _, s1, s2, s3, s4, _, hn⟩ := classifySCION_accept _ _ _ _ _ _ _ _ hc
-  obtain ⟨hu, hcrx, hupd⟩ := pairing_ntpStage G H Srv k cfg prev reference now cTx1 (scionRxTime d cRx)
+  obtain ⟨hu, hcrx, hupd⟩ := C03_pairing_stage G H Srv k cfg prev reference now cTx1 (scionRxTime d cRx)
     d.payload a href hco hsub a1 a2 (a4 d cRx b hm ⟨s1, s2, s3, s4⟩) hn
   refine ⟨hu, ?_⟩
   intro h1 h2
@@ -399,7 +383,7 @@ theorem C03_pairing_history_ip (G : Nat → ExStamps) (Srv : List Nat) (cfg : Cf
         exact ih _ _ hco hsub a2 hrest
 
 /-- the initial state and any state after `ResetInterleavedMode` is coherent -/
-theorem coherent_of_no_reference (G : Nat → ExStamps) (H : List Nat) (prev : Prev)
+theorem C03_coherent_initial (G : Nat → ExStamps) (H : List Nat) (prev : Prev)
     (h : prev.reference = "") : Coherent G H prev := fun hne => absurd h hne
 
 /-! ### Main statement -/
